@@ -34,6 +34,8 @@ def classify(case):
         return "credentials-accepted-by-another-proxy-of-the-process-open-this-one"
     if (case.get("spec") or {}).get("handler") and q.get("form") == "origin" and (st == 500 or o.get("from_peer")):
         return "handler-variant-origin-form-request-not-judged-by-its-host-field"
+    if (case.get("spec") or {}).get("empty_pass") and "no-colon" in ct and st != 407:
+        return "colonless-credentials-accepted-for-a-user-with-empty-password"
     if ct.startswith(("value-", "token-")) and st != 407 and (case.get("spec") or {}).get("auth"):
         return "case-folded-header-value-accepted-after-an-accepted-request"
     tf = (case.get("spec") or {}).get("time_frame")
